@@ -279,13 +279,13 @@ def unit_extract(tier, prof):
 
 
 def mod_io():
-    if 'mio' not in _c: _c['mio'] = ir.load(['src/engine/engine_io.c', 'src/engine/engine_util_blas.c'])
+    if 'mio' not in _c: _c['mio'] = ir.load(['src/engine/engine_io.c', 'src/engine/engine_util_blas.c', 'src/engine/engine_support.c', 'src/engine/engine_core_util.c', 'src/engine/engine_util_spatial.c', 'src/engine/engine_util_misc.c'])
     return _c['mio']
 
 
 def so_io():
     if 'soio' not in _c:
-        _c['soio'] = build.native_lib(['src/engine/engine_io.c'], ['src/engine/engine_util_blas.c', 'src/engine/engine_util_errmem.c'], name='io_key',
+        _c['soio'] = build.native_lib(['src/engine/engine_io.c'], ['src/engine/engine_util_blas.c', 'src/engine/engine_util_errmem.c', 'src/engine/engine_support.c', 'src/engine/engine_core_util.c', 'src/engine/engine_util_spatial.c', 'src/engine/engine_util_misc.c'], name='io_key',
                                       extra_c='void vfstub__resetData(const void* m, void* d, unsigned char v) { vf_log_call("_resetData"); }\n', redirect=['_resetData'])
     return _c['soio']
 
@@ -300,6 +300,10 @@ def unit_keyframe(tier, which, sizes):
     L = lay(); w = W.World('real'); nkey = sizes['nkey']
     M = W.SB(w, L, 'mjModel_', 'm'); D = W.SB(w, L, 'mjData_', 'd')
     for f, v in sizes.items(): M.set(f, v)
+    if 'njnt' not in sizes: M.set('njnt', 0)
+    if sizes.get('njnt'):
+        KJ = build.enum_values('mjJNT_')
+        M.arr('jnt_type', 'i32', 1, [KJ['mjJNT_BALL']]); M.arr('jnt_qposadr', 'i32', 1, [0]); M.arr('jnt_dofadr', 'i32', 1, [0])      # a ball joint: keyframe quaternions must come back exactly as stored
     kt_o, kt = M.arr('key_time', 'f64', nkey, name='key_time')
     K = {}; Dv = {}
     for kf, df, cnt, mul in KEYF:
@@ -367,8 +371,8 @@ def units(tier):
     for prof in (['A', 'B'] if tier == 'quick' else ['A', 'B', 'C', 'D']):
         for fn in ('size', 'get', 'set', 'copy'):
             u.append(('%s_%s' % (fn, prof), 'unit_' + fn, {'prof': prof}))
-    for sz in ([dict(nkey=2, nq=2, nv=1, na=1, nmocap=1, nu=2), dict(nkey=3, nq=1, nv=2, na=0, nmocap=2, nu=1)] if tier == 'quick' else
-               [dict(nkey=2, nq=2, nv=1, na=1, nmocap=1, nu=2), dict(nkey=3, nq=1, nv=2, na=0, nmocap=2, nu=1), dict(nkey=3, nq=3, nv=2, na=2, nmocap=1, nu=3), dict(nkey=1, nq=1, nv=1, na=1, nmocap=0, nu=0)]):
+    for sz in ([dict(nkey=2, nq=2, nv=1, na=1, nmocap=1, nu=2), dict(nkey=3, nq=1, nv=2, na=0, nmocap=2, nu=1), dict(nkey=2, nq=4, nv=3, na=0, nmocap=0, nu=0, njnt=1)] if tier == 'quick' else
+               [dict(nkey=2, nq=2, nv=1, na=1, nmocap=1, nu=2), dict(nkey=3, nq=1, nv=2, na=0, nmocap=2, nu=1), dict(nkey=3, nq=3, nv=2, na=2, nmocap=1, nu=3), dict(nkey=1, nq=1, nv=1, na=1, nmocap=0, nu=0), dict(nkey=2, nq=4, nv=3, na=0, nmocap=0, nu=0, njnt=1)]):
         for which in ('set', 'reset'):
             u.append(('keyframe_%s_%s' % (which, '_'.join('%s%d' % kv for kv in sorted(sz.items()))), 'unit_keyframe', {'which': which, 'sizes': sz}))
     # extract has two symbolic signatures; the all-elements profile A does not finish in the budget and is outside the claim
